@@ -1,4 +1,4 @@
-From Coq Require Import List ZArith Bool Arith.
+From Coq Require Import List ZArith Bool Arith NArith.
 From Echo Require Import Base.Sx Bind.BindData.
 Import ListNotations.
 (* type: (0 kind) scalar | (1 kind) slice | (2 (field ...)); kind 0 string 1 int; field: (settable anonymous ((src tag) ...) type)
@@ -38,8 +38,26 @@ Fixpoint path_leb (a b : path) : bool :=
 Fixpoint ins_path (p : path) (l : list path) : list path :=
   match l with [] => [p] | q :: r => if path_leb p q then p :: l else q :: ins_path p r end.
 Definition sort_paths (l : list path) : list path := fold_right ins_path [] l.
+(* map destinations: type (3 mode); output (2 ((key (value ...)) ...)) with keys in byte order, final values *)
+Fixpoint str_le (a b : list Ascii.ascii) : bool :=
+  match a, b with
+  | [], _ => true
+  | _ :: _, [] => false
+  | x :: a', y :: b' => if N.ltb (Ascii.N_of_ascii x) (Ascii.N_of_ascii y) then true
+                        else if N.ltb (Ascii.N_of_ascii y) (Ascii.N_of_ascii x) then false else str_le a' b'
+  end.
+Fixpoint ins_key (k : list Ascii.ascii) (l : list (list Ascii.ascii)) : list (list Ascii.ascii) :=
+  match l with [] => [k] | q :: r => if str_eqb k q then l else if str_le k q then k :: l else q :: ins_key k r end.
+Definition map_sx (x : sx) : sx :=
+  let mode := match as_Z (nth_sx 1 (nth_sx 0 x)) with 1%Z => MAll | 3%Z => MIgnored | _ => MFirst end in
+  match bind_map mode (as_str (nth_sx 1 x)) (dec_data (nth_sx 2 x)) (dec_data (nth_sx 3 x)) (dec_body (nth_sx 4 x)) with
+  | MStatus c => SL [SZ 0; of_nat c]
+  | MBound kvs => SL [SZ 2; SL (map (fun k => SL [SS k; SL (map SS (match map_final kvs k with Some v => v | None => [] end))])
+                                   (fold_right ins_key [] (map fst kvs)))]
+  end.
 Definition headers_lit : list Ascii.ascii := map Ascii.ascii_of_nat [35; 72; 69; 65; 68; 69; 82; 83].   (* "#HEADERS": BindHeaders on its own *)
 Definition run_sx (x : sx) : sx :=
+  if Z.eqb (as_Z (nth_sx 0 (nth_sx 0 x))) 3 then map_sx x else
   match (if str_eqb (as_str (nth_sx 1 x)) headers_lit
          then match bind_data (dec_ty 8 (nth_sx 0 x)) (dec_data (nth_sx 2 x)) 3 with Writes w => Bound w | Error => Status 400 end
          else bind (dec_ty 8 (nth_sx 0 x)) (as_str (nth_sx 1 x)) (dec_data (nth_sx 2 x)) (dec_data (nth_sx 3 x)) (dec_body (nth_sx 4 x))) with
